@@ -13,7 +13,7 @@ checks = {
    "window pairs whose acknowledgement traffic diverges are excluded (documented); scripted applications; deterministic clock hook", "4 C02"),
  "C03": (ex, "bounded-exhaustive exploration: deserializer token-alphabet state graph incl. illegal headers (BFS, depth 3), all byte strings <= 2/3 bytes, 12-symbol menu strings <= 5/6, all 256 type ids x body grammar, every session state reached by the C09/C10 alphabets x malformed-message menu, handshake byte menus; panic via catch_unwind, memory via counting allocator, hang via watchdog",
    "Exploration, not a proof over all byte strings: the explored sub-domain is stated and fully enumerated; oracle is 'returns Ok/Err, bounded peak allocation, returns in time'.",
-   "an Err result ends the connection (states after an error not expanded); AMF0 nesting bounded here (C14); memory bound factor 8/256 x received + 17 MiB", "4 C03"),
+   "an Err result ends the explored path after three follow-up calls on the errored object (empty input, a continuation byte, a fresh type-0 chunk), which must return too; AMF0 nesting bounded here (C14); memory bound factor 8/256 x received + 17 MiB", "4 C03"),
  "C04": (ex, "bounded-exhaustive enumeration of AMF0 value forests (staged atom/name/shape menus, depth <= 3/4, sequences <= 3) through the real serialize/deserialize; identity oracle",
    "Every forest of the finite, stated space is enumerated; encode must error or decode(all bytes) == input (numbers bit-for-bit, objects as maps).", "menus chosen from code thresholds (0, 65535, 65536 bytes; NaN/signed zero patterns)", "4 C04/C12"),
  "C05": (mc, "explicit-state exploration of the real Handshake: all-partitions graph per side (every (offset, call length) edge executed on the real object and required to land on the canonical node), joint interleaving grid from the verified emission functions plus real-object schedule replays",
@@ -82,7 +82,7 @@ for pid in sorted(checks):
       "replay_cmd_template": "./check %s --replay {path}" % pid,
       "engine": "vcheck (harness/src/checks)",
       "level_claimed": {"category": lvl, "text": text, "design_ref": "DESIGN.md section " + ref},
-      "level_note": note,
+      "level_note": note + "; families added after the seeded-change rounds (sizes above 4 KiB / 64 KiB / 2^23, long scripted histories, value sweeps over type ids, message stream ids, text content) are listed in DESIGN.md section 0a and in each evidence file",
       "technique": tech })
 json.dump(m, open(os.path.join(V, "MANIFEST.json"), "w"), indent=1)
 print("checks:", len(m["checks"]), "hook commits:", hook_commits)
